@@ -696,9 +696,23 @@ func refineFn(r *mc.Run, pool *mc.Pool, f *fn, blocks []badBlock) bool {
 // from when Wa stopped early (trap/hang), -1 when the range was completed.
 func compareVerbose(r *mc.Run, pool *mc.Pool, f *fn, src, goOut, waOut, waStatus, waErr string) (next int64, reported bool) {
 	gl := strings.Split(strings.TrimRight(goOut, "\n"), "\n")
+	// Wa lines; when Wa stopped early the last one is the unfinished line of the tuple it stopped in
+	// (possibly followed by the runtime's panic message)
 	wl := strings.Split(waOut, "\n")
-	if len(wl) > 0 && wl[len(wl)-1] == "" && waStatus == "ok" {
+	for len(wl) > 0 && wl[len(wl)-1] == "" {
 		wl = wl[:len(wl)-1]
+	}
+	if waStatus != "ok" {
+		// everything after the last "T <index>" line start belongs to the stopping tuple
+		last := -1
+		for i, l := range wl {
+			if strings.HasPrefix(l, "T ") {
+				last = i
+			}
+		}
+		if last >= 0 && last < len(wl)-1 {
+			wl = append(wl[:last:last], strings.Join(wl[last:], " / "))
+		}
 	}
 	for i, g := range gl {
 		if g == "" {
@@ -722,6 +736,11 @@ func compareVerbose(r *mc.Run, pool *mc.Pool, f *fn, src, goOut, waOut, waStatus
 		cls := "no-return"
 		if waStatus == "trap" {
 			what = "traps (" + waErr + ")"
+			if i < len(wl) {
+				if k := strings.Index(wl[i], "=>"); k >= 0 && strings.TrimSpace(wl[i][k+2:]) != "" {
+					what = "traps: " + strings.TrimSpace(wl[i][k+2:])
+				}
+			}
 			cls = "trap"
 		} else if waStatus == "crash" {
 			what = "takes the engine process down (" + waErr + ")"
